@@ -84,6 +84,8 @@ func c15replay(c *Ctx, lines []string) {
 			c15utpdec(c, uint8(v), unhx(f[2]))
 		case "hold":
 			c15hold(c, unhxl(f[1]), unhxl(f[2]))
+		case "rejoin":
+			c15rejoin(c, unhxl(f[1]))
 		case "enc", "rt", "trunc":
 			items := unhxl(f[1])
 			enc := portalwire.VerifEncodeContents(items)
@@ -150,6 +152,13 @@ func runC15(c *Ctx) {
 		}
 		c15dec1(c, b)
 	}
+	for _, sizes := range [][]int{{130, 5}, {200, 0, 3}, {5, 130, 5}, {16384, 1}, {1}, {127, 128, 127}} {
+		items := make([][]byte, len(sizes))
+		for j, n := range sizes {
+			items[j] = r.Bytes(n)
+		}
+		c15rejoin(c, items)
+	}
 	bigBudget := 2
 	if c.Tier == "thorough" {
 		bigBudget = 40
@@ -203,6 +212,10 @@ func runC15(c *Ctx) {
 				}
 				c.Count("hold")
 				c15hold(c, items, other)
+			}
+			if len(enc) < 20000 && len(items) > 0 && r.Intn(3) == 0 {
+				c.Count("rejoin")
+				c15rejoin(c, items)
 			}
 		case k < 6: // mutate a valid encoding
 			cnt := 1 + r.Intn(4)
@@ -282,6 +295,23 @@ func c15hold(c *Ctx, a, b [][]byte) {
 		_ = portalwire.VerifEncodeContents(b)
 	}
 	c.Emit("hold %s %s | %s", hxl(a), hxl(b), hx(pa))
+}
+
+// c15rejoin joins a list, splits the stream out of an append-grown receive buffer (the items are then sub-slices with
+// spare capacity, as on the gossip path: received contents are offered on to several peers) and joins the split items
+// twice; both joins must be the stream again and the items must still be the items.
+func c15rejoin(c *Ctx, items [][]byte) {
+	stream := portalwire.VerifEncodeContents(items)
+	buf := make([]byte, 0, len(stream)+64) // spare room behind the last item, like a read buffer grown by append
+	buf = append(buf, stream...)
+	got, err := portalwire.VerifDecodeContents(buf)
+	if err != nil {
+		c.Emit("rejoin %s | err %d", hxl(items), classify(err, c15errs))
+		return
+	}
+	j1 := append([]byte{}, portalwire.VerifEncodeContents(got)...)
+	j2 := append([]byte{}, portalwire.VerifEncodeContents(got)...)
+	c.Emit("rejoin %s | %s %s %s", hxl(items), hx(j1), hx(j2), hxl(got))
 }
 
 func c15dec1(c *Ctx, b []byte) {
